@@ -1,12 +1,29 @@
 
+(** val negb : bool -> bool **)
+
+let negb = function
+| true -> false
+| false -> true
+
 type nat =
 | O
 | S of nat
+
+(** val fst : ('a1 * 'a2) -> 'a1 **)
+
+let fst = function
+| (x, _) -> x
 
 (** val snd : ('a1 * 'a2) -> 'a2 **)
 
 let snd = function
 | (_, y) -> y
+
+(** val length : 'a1 list -> nat **)
+
+let rec length = function
+| [] -> O
+| _ :: l' -> S (length l')
 
 (** val app : 'a1 list -> 'a1 list -> 'a1 list **)
 
@@ -682,6 +699,267 @@ let of_bits = function
                                 then if b7 then Xc0 else X40
                                 else if b7 then X80 else X00
 
+(** val to_bits :
+    byte -> bool * (bool * (bool * (bool * (bool * (bool * (bool * bool)))))) **)
+
+let to_bits = function
+| X00 -> (false, (false, (false, (false, (false, (false, (false, false)))))))
+| X01 -> (true, (false, (false, (false, (false, (false, (false, false)))))))
+| X02 -> (false, (true, (false, (false, (false, (false, (false, false)))))))
+| X03 -> (true, (true, (false, (false, (false, (false, (false, false)))))))
+| X04 -> (false, (false, (true, (false, (false, (false, (false, false)))))))
+| X05 -> (true, (false, (true, (false, (false, (false, (false, false)))))))
+| X06 -> (false, (true, (true, (false, (false, (false, (false, false)))))))
+| X07 -> (true, (true, (true, (false, (false, (false, (false, false)))))))
+| X08 -> (false, (false, (false, (true, (false, (false, (false, false)))))))
+| X09 -> (true, (false, (false, (true, (false, (false, (false, false)))))))
+| X0a -> (false, (true, (false, (true, (false, (false, (false, false)))))))
+| X0b -> (true, (true, (false, (true, (false, (false, (false, false)))))))
+| X0c -> (false, (false, (true, (true, (false, (false, (false, false)))))))
+| X0d -> (true, (false, (true, (true, (false, (false, (false, false)))))))
+| X0e -> (false, (true, (true, (true, (false, (false, (false, false)))))))
+| X0f -> (true, (true, (true, (true, (false, (false, (false, false)))))))
+| X10 -> (false, (false, (false, (false, (true, (false, (false, false)))))))
+| X11 -> (true, (false, (false, (false, (true, (false, (false, false)))))))
+| X12 -> (false, (true, (false, (false, (true, (false, (false, false)))))))
+| X13 -> (true, (true, (false, (false, (true, (false, (false, false)))))))
+| X14 -> (false, (false, (true, (false, (true, (false, (false, false)))))))
+| X15 -> (true, (false, (true, (false, (true, (false, (false, false)))))))
+| X16 -> (false, (true, (true, (false, (true, (false, (false, false)))))))
+| X17 -> (true, (true, (true, (false, (true, (false, (false, false)))))))
+| X18 -> (false, (false, (false, (true, (true, (false, (false, false)))))))
+| X19 -> (true, (false, (false, (true, (true, (false, (false, false)))))))
+| X1a -> (false, (true, (false, (true, (true, (false, (false, false)))))))
+| X1b -> (true, (true, (false, (true, (true, (false, (false, false)))))))
+| X1c -> (false, (false, (true, (true, (true, (false, (false, false)))))))
+| X1d -> (true, (false, (true, (true, (true, (false, (false, false)))))))
+| X1e -> (false, (true, (true, (true, (true, (false, (false, false)))))))
+| X1f -> (true, (true, (true, (true, (true, (false, (false, false)))))))
+| X20 -> (false, (false, (false, (false, (false, (true, (false, false)))))))
+| X21 -> (true, (false, (false, (false, (false, (true, (false, false)))))))
+| X22 -> (false, (true, (false, (false, (false, (true, (false, false)))))))
+| X23 -> (true, (true, (false, (false, (false, (true, (false, false)))))))
+| X24 -> (false, (false, (true, (false, (false, (true, (false, false)))))))
+| X25 -> (true, (false, (true, (false, (false, (true, (false, false)))))))
+| X26 -> (false, (true, (true, (false, (false, (true, (false, false)))))))
+| X27 -> (true, (true, (true, (false, (false, (true, (false, false)))))))
+| X28 -> (false, (false, (false, (true, (false, (true, (false, false)))))))
+| X29 -> (true, (false, (false, (true, (false, (true, (false, false)))))))
+| X2a -> (false, (true, (false, (true, (false, (true, (false, false)))))))
+| X2b -> (true, (true, (false, (true, (false, (true, (false, false)))))))
+| X2c -> (false, (false, (true, (true, (false, (true, (false, false)))))))
+| X2d -> (true, (false, (true, (true, (false, (true, (false, false)))))))
+| X2e -> (false, (true, (true, (true, (false, (true, (false, false)))))))
+| X2f -> (true, (true, (true, (true, (false, (true, (false, false)))))))
+| X30 -> (false, (false, (false, (false, (true, (true, (false, false)))))))
+| X31 -> (true, (false, (false, (false, (true, (true, (false, false)))))))
+| X32 -> (false, (true, (false, (false, (true, (true, (false, false)))))))
+| X33 -> (true, (true, (false, (false, (true, (true, (false, false)))))))
+| X34 -> (false, (false, (true, (false, (true, (true, (false, false)))))))
+| X35 -> (true, (false, (true, (false, (true, (true, (false, false)))))))
+| X36 -> (false, (true, (true, (false, (true, (true, (false, false)))))))
+| X37 -> (true, (true, (true, (false, (true, (true, (false, false)))))))
+| X38 -> (false, (false, (false, (true, (true, (true, (false, false)))))))
+| X39 -> (true, (false, (false, (true, (true, (true, (false, false)))))))
+| X3a -> (false, (true, (false, (true, (true, (true, (false, false)))))))
+| X3b -> (true, (true, (false, (true, (true, (true, (false, false)))))))
+| X3c -> (false, (false, (true, (true, (true, (true, (false, false)))))))
+| X3d -> (true, (false, (true, (true, (true, (true, (false, false)))))))
+| X3e -> (false, (true, (true, (true, (true, (true, (false, false)))))))
+| X3f -> (true, (true, (true, (true, (true, (true, (false, false)))))))
+| X40 -> (false, (false, (false, (false, (false, (false, (true, false)))))))
+| X41 -> (true, (false, (false, (false, (false, (false, (true, false)))))))
+| X42 -> (false, (true, (false, (false, (false, (false, (true, false)))))))
+| X43 -> (true, (true, (false, (false, (false, (false, (true, false)))))))
+| X44 -> (false, (false, (true, (false, (false, (false, (true, false)))))))
+| X45 -> (true, (false, (true, (false, (false, (false, (true, false)))))))
+| X46 -> (false, (true, (true, (false, (false, (false, (true, false)))))))
+| X47 -> (true, (true, (true, (false, (false, (false, (true, false)))))))
+| X48 -> (false, (false, (false, (true, (false, (false, (true, false)))))))
+| X49 -> (true, (false, (false, (true, (false, (false, (true, false)))))))
+| X4a -> (false, (true, (false, (true, (false, (false, (true, false)))))))
+| X4b -> (true, (true, (false, (true, (false, (false, (true, false)))))))
+| X4c -> (false, (false, (true, (true, (false, (false, (true, false)))))))
+| X4d -> (true, (false, (true, (true, (false, (false, (true, false)))))))
+| X4e -> (false, (true, (true, (true, (false, (false, (true, false)))))))
+| X4f -> (true, (true, (true, (true, (false, (false, (true, false)))))))
+| X50 -> (false, (false, (false, (false, (true, (false, (true, false)))))))
+| X51 -> (true, (false, (false, (false, (true, (false, (true, false)))))))
+| X52 -> (false, (true, (false, (false, (true, (false, (true, false)))))))
+| X53 -> (true, (true, (false, (false, (true, (false, (true, false)))))))
+| X54 -> (false, (false, (true, (false, (true, (false, (true, false)))))))
+| X55 -> (true, (false, (true, (false, (true, (false, (true, false)))))))
+| X56 -> (false, (true, (true, (false, (true, (false, (true, false)))))))
+| X57 -> (true, (true, (true, (false, (true, (false, (true, false)))))))
+| X58 -> (false, (false, (false, (true, (true, (false, (true, false)))))))
+| X59 -> (true, (false, (false, (true, (true, (false, (true, false)))))))
+| X5a -> (false, (true, (false, (true, (true, (false, (true, false)))))))
+| X5b -> (true, (true, (false, (true, (true, (false, (true, false)))))))
+| X5c -> (false, (false, (true, (true, (true, (false, (true, false)))))))
+| X5d -> (true, (false, (true, (true, (true, (false, (true, false)))))))
+| X5e -> (false, (true, (true, (true, (true, (false, (true, false)))))))
+| X5f -> (true, (true, (true, (true, (true, (false, (true, false)))))))
+| X60 -> (false, (false, (false, (false, (false, (true, (true, false)))))))
+| X61 -> (true, (false, (false, (false, (false, (true, (true, false)))))))
+| X62 -> (false, (true, (false, (false, (false, (true, (true, false)))))))
+| X63 -> (true, (true, (false, (false, (false, (true, (true, false)))))))
+| X64 -> (false, (false, (true, (false, (false, (true, (true, false)))))))
+| X65 -> (true, (false, (true, (false, (false, (true, (true, false)))))))
+| X66 -> (false, (true, (true, (false, (false, (true, (true, false)))))))
+| X67 -> (true, (true, (true, (false, (false, (true, (true, false)))))))
+| X68 -> (false, (false, (false, (true, (false, (true, (true, false)))))))
+| X69 -> (true, (false, (false, (true, (false, (true, (true, false)))))))
+| X6a -> (false, (true, (false, (true, (false, (true, (true, false)))))))
+| X6b -> (true, (true, (false, (true, (false, (true, (true, false)))))))
+| X6c -> (false, (false, (true, (true, (false, (true, (true, false)))))))
+| X6d -> (true, (false, (true, (true, (false, (true, (true, false)))))))
+| X6e -> (false, (true, (true, (true, (false, (true, (true, false)))))))
+| X6f -> (true, (true, (true, (true, (false, (true, (true, false)))))))
+| X70 -> (false, (false, (false, (false, (true, (true, (true, false)))))))
+| X71 -> (true, (false, (false, (false, (true, (true, (true, false)))))))
+| X72 -> (false, (true, (false, (false, (true, (true, (true, false)))))))
+| X73 -> (true, (true, (false, (false, (true, (true, (true, false)))))))
+| X74 -> (false, (false, (true, (false, (true, (true, (true, false)))))))
+| X75 -> (true, (false, (true, (false, (true, (true, (true, false)))))))
+| X76 -> (false, (true, (true, (false, (true, (true, (true, false)))))))
+| X77 -> (true, (true, (true, (false, (true, (true, (true, false)))))))
+| X78 -> (false, (false, (false, (true, (true, (true, (true, false)))))))
+| X79 -> (true, (false, (false, (true, (true, (true, (true, false)))))))
+| X7a -> (false, (true, (false, (true, (true, (true, (true, false)))))))
+| X7b -> (true, (true, (false, (true, (true, (true, (true, false)))))))
+| X7c -> (false, (false, (true, (true, (true, (true, (true, false)))))))
+| X7d -> (true, (false, (true, (true, (true, (true, (true, false)))))))
+| X7e -> (false, (true, (true, (true, (true, (true, (true, false)))))))
+| X7f -> (true, (true, (true, (true, (true, (true, (true, false)))))))
+| X80 -> (false, (false, (false, (false, (false, (false, (false, true)))))))
+| X81 -> (true, (false, (false, (false, (false, (false, (false, true)))))))
+| X82 -> (false, (true, (false, (false, (false, (false, (false, true)))))))
+| X83 -> (true, (true, (false, (false, (false, (false, (false, true)))))))
+| X84 -> (false, (false, (true, (false, (false, (false, (false, true)))))))
+| X85 -> (true, (false, (true, (false, (false, (false, (false, true)))))))
+| X86 -> (false, (true, (true, (false, (false, (false, (false, true)))))))
+| X87 -> (true, (true, (true, (false, (false, (false, (false, true)))))))
+| X88 -> (false, (false, (false, (true, (false, (false, (false, true)))))))
+| X89 -> (true, (false, (false, (true, (false, (false, (false, true)))))))
+| X8a -> (false, (true, (false, (true, (false, (false, (false, true)))))))
+| X8b -> (true, (true, (false, (true, (false, (false, (false, true)))))))
+| X8c -> (false, (false, (true, (true, (false, (false, (false, true)))))))
+| X8d -> (true, (false, (true, (true, (false, (false, (false, true)))))))
+| X8e -> (false, (true, (true, (true, (false, (false, (false, true)))))))
+| X8f -> (true, (true, (true, (true, (false, (false, (false, true)))))))
+| X90 -> (false, (false, (false, (false, (true, (false, (false, true)))))))
+| X91 -> (true, (false, (false, (false, (true, (false, (false, true)))))))
+| X92 -> (false, (true, (false, (false, (true, (false, (false, true)))))))
+| X93 -> (true, (true, (false, (false, (true, (false, (false, true)))))))
+| X94 -> (false, (false, (true, (false, (true, (false, (false, true)))))))
+| X95 -> (true, (false, (true, (false, (true, (false, (false, true)))))))
+| X96 -> (false, (true, (true, (false, (true, (false, (false, true)))))))
+| X97 -> (true, (true, (true, (false, (true, (false, (false, true)))))))
+| X98 -> (false, (false, (false, (true, (true, (false, (false, true)))))))
+| X99 -> (true, (false, (false, (true, (true, (false, (false, true)))))))
+| X9a -> (false, (true, (false, (true, (true, (false, (false, true)))))))
+| X9b -> (true, (true, (false, (true, (true, (false, (false, true)))))))
+| X9c -> (false, (false, (true, (true, (true, (false, (false, true)))))))
+| X9d -> (true, (false, (true, (true, (true, (false, (false, true)))))))
+| X9e -> (false, (true, (true, (true, (true, (false, (false, true)))))))
+| X9f -> (true, (true, (true, (true, (true, (false, (false, true)))))))
+| Xa0 -> (false, (false, (false, (false, (false, (true, (false, true)))))))
+| Xa1 -> (true, (false, (false, (false, (false, (true, (false, true)))))))
+| Xa2 -> (false, (true, (false, (false, (false, (true, (false, true)))))))
+| Xa3 -> (true, (true, (false, (false, (false, (true, (false, true)))))))
+| Xa4 -> (false, (false, (true, (false, (false, (true, (false, true)))))))
+| Xa5 -> (true, (false, (true, (false, (false, (true, (false, true)))))))
+| Xa6 -> (false, (true, (true, (false, (false, (true, (false, true)))))))
+| Xa7 -> (true, (true, (true, (false, (false, (true, (false, true)))))))
+| Xa8 -> (false, (false, (false, (true, (false, (true, (false, true)))))))
+| Xa9 -> (true, (false, (false, (true, (false, (true, (false, true)))))))
+| Xaa -> (false, (true, (false, (true, (false, (true, (false, true)))))))
+| Xab -> (true, (true, (false, (true, (false, (true, (false, true)))))))
+| Xac -> (false, (false, (true, (true, (false, (true, (false, true)))))))
+| Xad -> (true, (false, (true, (true, (false, (true, (false, true)))))))
+| Xae -> (false, (true, (true, (true, (false, (true, (false, true)))))))
+| Xaf -> (true, (true, (true, (true, (false, (true, (false, true)))))))
+| Xb0 -> (false, (false, (false, (false, (true, (true, (false, true)))))))
+| Xb1 -> (true, (false, (false, (false, (true, (true, (false, true)))))))
+| Xb2 -> (false, (true, (false, (false, (true, (true, (false, true)))))))
+| Xb3 -> (true, (true, (false, (false, (true, (true, (false, true)))))))
+| Xb4 -> (false, (false, (true, (false, (true, (true, (false, true)))))))
+| Xb5 -> (true, (false, (true, (false, (true, (true, (false, true)))))))
+| Xb6 -> (false, (true, (true, (false, (true, (true, (false, true)))))))
+| Xb7 -> (true, (true, (true, (false, (true, (true, (false, true)))))))
+| Xb8 -> (false, (false, (false, (true, (true, (true, (false, true)))))))
+| Xb9 -> (true, (false, (false, (true, (true, (true, (false, true)))))))
+| Xba -> (false, (true, (false, (true, (true, (true, (false, true)))))))
+| Xbb -> (true, (true, (false, (true, (true, (true, (false, true)))))))
+| Xbc -> (false, (false, (true, (true, (true, (true, (false, true)))))))
+| Xbd -> (true, (false, (true, (true, (true, (true, (false, true)))))))
+| Xbe -> (false, (true, (true, (true, (true, (true, (false, true)))))))
+| Xbf -> (true, (true, (true, (true, (true, (true, (false, true)))))))
+| Xc0 -> (false, (false, (false, (false, (false, (false, (true, true)))))))
+| Xc1 -> (true, (false, (false, (false, (false, (false, (true, true)))))))
+| Xc2 -> (false, (true, (false, (false, (false, (false, (true, true)))))))
+| Xc3 -> (true, (true, (false, (false, (false, (false, (true, true)))))))
+| Xc4 -> (false, (false, (true, (false, (false, (false, (true, true)))))))
+| Xc5 -> (true, (false, (true, (false, (false, (false, (true, true)))))))
+| Xc6 -> (false, (true, (true, (false, (false, (false, (true, true)))))))
+| Xc7 -> (true, (true, (true, (false, (false, (false, (true, true)))))))
+| Xc8 -> (false, (false, (false, (true, (false, (false, (true, true)))))))
+| Xc9 -> (true, (false, (false, (true, (false, (false, (true, true)))))))
+| Xca -> (false, (true, (false, (true, (false, (false, (true, true)))))))
+| Xcb -> (true, (true, (false, (true, (false, (false, (true, true)))))))
+| Xcc -> (false, (false, (true, (true, (false, (false, (true, true)))))))
+| Xcd -> (true, (false, (true, (true, (false, (false, (true, true)))))))
+| Xce -> (false, (true, (true, (true, (false, (false, (true, true)))))))
+| Xcf -> (true, (true, (true, (true, (false, (false, (true, true)))))))
+| Xd0 -> (false, (false, (false, (false, (true, (false, (true, true)))))))
+| Xd1 -> (true, (false, (false, (false, (true, (false, (true, true)))))))
+| Xd2 -> (false, (true, (false, (false, (true, (false, (true, true)))))))
+| Xd3 -> (true, (true, (false, (false, (true, (false, (true, true)))))))
+| Xd4 -> (false, (false, (true, (false, (true, (false, (true, true)))))))
+| Xd5 -> (true, (false, (true, (false, (true, (false, (true, true)))))))
+| Xd6 -> (false, (true, (true, (false, (true, (false, (true, true)))))))
+| Xd7 -> (true, (true, (true, (false, (true, (false, (true, true)))))))
+| Xd8 -> (false, (false, (false, (true, (true, (false, (true, true)))))))
+| Xd9 -> (true, (false, (false, (true, (true, (false, (true, true)))))))
+| Xda -> (false, (true, (false, (true, (true, (false, (true, true)))))))
+| Xdb -> (true, (true, (false, (true, (true, (false, (true, true)))))))
+| Xdc -> (false, (false, (true, (true, (true, (false, (true, true)))))))
+| Xdd -> (true, (false, (true, (true, (true, (false, (true, true)))))))
+| Xde -> (false, (true, (true, (true, (true, (false, (true, true)))))))
+| Xdf -> (true, (true, (true, (true, (true, (false, (true, true)))))))
+| Xe0 -> (false, (false, (false, (false, (false, (true, (true, true)))))))
+| Xe1 -> (true, (false, (false, (false, (false, (true, (true, true)))))))
+| Xe2 -> (false, (true, (false, (false, (false, (true, (true, true)))))))
+| Xe3 -> (true, (true, (false, (false, (false, (true, (true, true)))))))
+| Xe4 -> (false, (false, (true, (false, (false, (true, (true, true)))))))
+| Xe5 -> (true, (false, (true, (false, (false, (true, (true, true)))))))
+| Xe6 -> (false, (true, (true, (false, (false, (true, (true, true)))))))
+| Xe7 -> (true, (true, (true, (false, (false, (true, (true, true)))))))
+| Xe8 -> (false, (false, (false, (true, (false, (true, (true, true)))))))
+| Xe9 -> (true, (false, (false, (true, (false, (true, (true, true)))))))
+| Xea -> (false, (true, (false, (true, (false, (true, (true, true)))))))
+| Xeb -> (true, (true, (false, (true, (false, (true, (true, true)))))))
+| Xec -> (false, (false, (true, (true, (false, (true, (true, true)))))))
+| Xed -> (true, (false, (true, (true, (false, (true, (true, true)))))))
+| Xee -> (false, (true, (true, (true, (false, (true, (true, true)))))))
+| Xef -> (true, (true, (true, (true, (false, (true, (true, true)))))))
+| Xf0 -> (false, (false, (false, (false, (true, (true, (true, true)))))))
+| Xf1 -> (true, (false, (false, (false, (true, (true, (true, true)))))))
+| Xf2 -> (false, (true, (false, (false, (true, (true, (true, true)))))))
+| Xf3 -> (true, (true, (false, (false, (true, (true, (true, true)))))))
+| Xf4 -> (false, (false, (true, (false, (true, (true, (true, true)))))))
+| Xf5 -> (true, (false, (true, (false, (true, (true, (true, true)))))))
+| Xf6 -> (false, (true, (true, (false, (true, (true, (true, true)))))))
+| Xf7 -> (true, (true, (true, (false, (true, (true, (true, true)))))))
+| Xf8 -> (false, (false, (false, (true, (true, (true, (true, true)))))))
+| Xf9 -> (true, (false, (false, (true, (true, (true, (true, true)))))))
+| Xfa -> (false, (true, (false, (true, (true, (true, (true, true)))))))
+| Xfb -> (true, (true, (false, (true, (true, (true, (true, true)))))))
+| Xfc -> (false, (false, (true, (true, (true, (true, (true, true)))))))
+| Xfd -> (true, (false, (true, (true, (true, (true, (true, true)))))))
+| Xfe -> (false, (true, (true, (true, (true, (true, (true, true)))))))
+| Xff -> (true, (true, (true, (true, (true, (true, (true, true)))))))
+
 type positive =
 | XI of positive
 | XO of positive
@@ -695,6 +973,39 @@ type z =
 | Z0
 | Zpos of positive
 | Zneg of positive
+
+(** val eqb : bool -> bool -> bool **)
+
+let eqb b1 b2 =
+  if b1 then b2 else if b2 then false else true
+
+module Nat =
+ struct
+  (** val eqb : nat -> nat -> bool **)
+
+  let rec eqb n0 m =
+    match n0 with
+    | O -> (match m with
+            | O -> true
+            | S _ -> false)
+    | S n' -> (match m with
+               | O -> false
+               | S m' -> eqb n' m')
+
+  (** val leb : nat -> nat -> bool **)
+
+  let rec leb n0 m =
+    match n0 with
+    | O -> true
+    | S n' -> (match m with
+               | O -> false
+               | S m' -> leb n' m')
+
+  (** val ltb : nat -> nat -> bool **)
+
+  let ltb n0 m =
+    leb (S n0) m
+ end
 
 module Pos =
  struct
@@ -833,6 +1144,11 @@ module Coq_Pos =
   | XO n' -> iter f (iter f x n') n'
   | XH -> f x
 
+  (** val pow : positive -> positive -> positive **)
+
+  let pow x =
+    iter (mul x) XH
+
   (** val compare_cont : comparison -> positive -> positive -> comparison **)
 
   let rec compare_cont r x y =
@@ -957,6 +1273,21 @@ module N =
     match compare x y with
     | Gt -> false
     | _ -> true
+
+  (** val ltb : n -> n -> bool **)
+
+  let ltb x y =
+    match compare x y with
+    | Lt -> true
+    | _ -> false
+
+  (** val pow : n -> n -> n **)
+
+  let pow n0 = function
+  | N0 -> Npos XH
+  | Npos p0 -> (match n0 with
+                | N0 -> N0
+                | Npos q -> Npos (Coq_Pos.pow q p0))
 
   (** val pos_div_eucl : positive -> n -> n * n **)
 
@@ -1213,11 +1544,54 @@ module Z =
     let (_, r) = div_eucl a b in r
  end
 
+(** val rev : 'a1 list -> 'a1 list **)
+
+let rec rev = function
+| [] -> []
+| x :: l' -> app (rev l') (x :: [])
+
 (** val map : ('a1 -> 'a2) -> 'a1 list -> 'a2 list **)
 
 let rec map f = function
 | [] -> []
 | a :: t -> (f a) :: (map f t)
+
+(** val flat_map : ('a1 -> 'a2 list) -> 'a1 list -> 'a2 list **)
+
+let rec flat_map f = function
+| [] -> []
+| x :: t -> app (f x) (flat_map f t)
+
+(** val fold_left : ('a1 -> 'a2 -> 'a1) -> 'a2 list -> 'a1 -> 'a1 **)
+
+let rec fold_left f l a0 =
+  match l with
+  | [] -> a0
+  | b :: t -> fold_left f t (f a0 b)
+
+(** val existsb : ('a1 -> bool) -> 'a1 list -> bool **)
+
+let rec existsb f = function
+| [] -> false
+| a :: l0 -> (||) (f a) (existsb f l0)
+
+(** val forallb : ('a1 -> bool) -> 'a1 list -> bool **)
+
+let rec forallb f = function
+| [] -> true
+| a :: l0 -> (&&) (f a) (forallb f l0)
+
+(** val filter : ('a1 -> bool) -> 'a1 list -> 'a1 list **)
+
+let rec filter f = function
+| [] -> []
+| x :: l0 -> if f x then x :: (filter f l0) else filter f l0
+
+(** val find : ('a1 -> bool) -> 'a1 list -> 'a1 option **)
+
+let rec find f = function
+| [] -> None
+| x :: tl -> if f x then Some x else find f tl
 
 (** val firstn : nat -> 'a1 list -> 'a1 list **)
 
@@ -1236,6 +1610,30 @@ let rec skipn n0 l =
   | S n1 -> (match l with
              | [] -> []
              | _ :: l0 -> skipn n1 l0)
+
+(** val eqb0 : byte -> byte -> bool **)
+
+let eqb0 a b =
+  let (a0, p) = to_bits a in
+  let (a1, p0) = p in
+  let (a2, p1) = p0 in
+  let (a3, p2) = p1 in
+  let (a4, p3) = p2 in
+  let (a5, p4) = p3 in
+  let (a6, a7) = p4 in
+  let (b0, p5) = to_bits b in
+  let (b1, p6) = p5 in
+  let (b2, p7) = p6 in
+  let (b3, p8) = p7 in
+  let (b4, p9) = p8 in
+  let (b5, p10) = p9 in
+  let (b6, b7) = p10 in
+  (&&)
+    ((&&)
+      ((&&)
+        ((&&)
+          ((&&) ((&&) ((&&) (eqb a0 b0) (eqb a1 b1)) (eqb a2 b2)) (eqb a3 b3))
+          (eqb a4 b4)) (eqb a5 b5)) (eqb a6 b6)) (eqb a7 b7)
 
 (** val to_N0 : byte -> n **)
 
@@ -2320,6 +2718,88 @@ let z2b z0 =
 let bs =
   list_byte_of_string
 
+(** val bytes_eqb : bytes -> bytes -> bool **)
+
+let rec bytes_eqb a b =
+  match a with
+  | [] -> (match b with
+           | [] -> true
+           | _ :: _ -> false)
+  | x :: a' ->
+    (match b with
+     | [] -> false
+     | y :: b' -> (&&) (eqb0 x y) (bytes_eqb a' b'))
+
+(** val is_upper : byte -> bool **)
+
+let is_upper b =
+  (&&) (N.leb (Npos (XI (XO (XO (XO (XO (XO XH))))))) (b2n b))
+    (N.leb (b2n b) (Npos (XO (XI (XO (XI (XI (XO XH))))))))
+
+(** val is_digit : byte -> bool **)
+
+let is_digit b =
+  (&&) (N.leb (Npos (XO (XO (XO (XO (XI XH)))))) (b2n b))
+    (N.leb (b2n b) (Npos (XI (XO (XO (XI (XI XH)))))))
+
+(** val is_ows : byte -> bool **)
+
+let is_ows = function
+| X09 -> true
+| X20 -> true
+| _ -> false
+
+(** val to_lower : byte -> byte **)
+
+let to_lower b =
+  if is_upper b
+  then n2b (N.add (b2n b) (Npos (XO (XO (XO (XO (XO XH)))))))
+  else b
+
+(** val eq_ic : bytes -> bytes -> bool **)
+
+let rec eq_ic a b =
+  match a with
+  | [] -> (match b with
+           | [] -> true
+           | _ :: _ -> false)
+  | x :: a' ->
+    (match b with
+     | [] -> false
+     | y :: b' -> (&&) (eqb0 (to_lower x) (to_lower y)) (eq_ic a' b'))
+
+(** val drop_while : ('a1 -> bool) -> 'a1 list -> 'a1 list **)
+
+let rec drop_while p l = match l with
+| [] -> []
+| x :: r -> if p x then drop_while p r else l
+
+(** val trim_start : (byte -> bool) -> bytes -> bytes **)
+
+let trim_start =
+  drop_while
+
+(** val trim_end : (byte -> bool) -> bytes -> bytes **)
+
+let trim_end p l =
+  rev (drop_while p (rev l))
+
+(** val trim_both : (byte -> bool) -> bytes -> bytes **)
+
+let trim_both p l =
+  trim_end p (trim_start p l)
+
+(** val split_on : byte -> bytes -> bytes list **)
+
+let rec split_on sep = function
+| [] -> [] :: []
+| x :: r ->
+  if eqb0 x sep
+  then [] :: (split_on sep r)
+  else (match split_on sep r with
+        | [] -> (x :: []) :: []
+        | p :: ps -> (x :: p) :: ps)
+
 (** val sECS_PER_DAY : z **)
 
 let sECS_PER_DAY =
@@ -2671,3 +3151,911 @@ let get_date_now c now =
 let rec cache_run c = function
 | [] -> []
 | t :: r -> let (c', out) = get_date_now c t in out :: (cache_run c' r)
+
+type seg =
+| Lit of bytes
+| Param of bytes
+| Wild
+| DWild
+
+type prec =
+| PDW
+| PW
+| PP
+| PL
+
+(** val prec_rank : prec -> nat **)
+
+let prec_rank = function
+| PDW -> O
+| PW -> S O
+| PP -> S (S O)
+| PL -> S (S (S O))
+
+(** val prec_eqb : prec -> prec -> bool **)
+
+let prec_eqb a b =
+  Nat.eqb (prec_rank a) (prec_rank b)
+
+(** val prec_gtb : prec -> prec -> bool **)
+
+let prec_gtb a b =
+  Nat.ltb (prec_rank b) (prec_rank a)
+
+type pattern = { segs : seg list; last_prec : prec }
+
+(** val precedence_of : seg option -> prec **)
+
+let precedence_of = function
+| Some s ->
+  (match s with
+   | Lit _ -> PL
+   | Param _ -> PP
+   | Wild -> PW
+   | DWild -> PDW)
+| None -> PDW
+
+(** val parse_route_segment : bytes -> seg **)
+
+let parse_route_segment s =
+  if bytes_eqb s (X2a :: [])
+  then Wild
+  else if bytes_eqb s (X2a :: (X2a :: []))
+       then DWild
+       else (match s with
+             | [] -> Lit s
+             | b :: r -> (match b with
+                          | X3a -> Param r
+                          | _ -> Lit s))
+
+(** val strip_slash : bytes -> bytes **)
+
+let strip_slash s = match s with
+| [] -> s
+| b :: r -> (match b with
+             | X2f -> r
+             | _ -> s)
+
+(** val last_opt : 'a1 list -> 'a1 option **)
+
+let last_opt l =
+  match rev l with
+  | [] -> None
+  | x :: _ -> Some x
+
+(** val parse_route : bytes -> bytes * pattern **)
+
+let parse_route route_str =
+  let norm = strip_slash route_str in
+  let pat = map parse_route_segment (split_on X2f norm) in
+  (norm, { segs = pat; last_prec = (precedence_of (last_opt pat)) })
+
+(** val seg_eqb : seg -> seg -> bool **)
+
+let seg_eqb a b =
+  match a with
+  | Lit x -> (match b with
+              | Lit y -> bytes_eqb x y
+              | _ -> false)
+  | Param _ -> (match b with
+                | Param _ -> true
+                | _ -> false)
+  | Wild -> (match b with
+             | Wild -> true
+             | _ -> false)
+  | DWild -> (match b with
+              | DWild -> true
+              | _ -> false)
+
+(** val segs_eqb : seg list -> seg list -> bool **)
+
+let rec segs_eqb a b =
+  match a with
+  | [] -> (match b with
+           | [] -> true
+           | _ :: _ -> false)
+  | x :: a' ->
+    (match b with
+     | [] -> false
+     | y :: b' -> (&&) (seg_eqb x y) (segs_eqb a' b'))
+
+(** val pattern_eqb : pattern -> pattern -> bool **)
+
+let pattern_eqb a b =
+  (&&) (segs_eqb a.segs b.segs) (prec_eqb a.last_prec b.last_prec)
+
+(** val is_lit : seg -> bool **)
+
+let is_lit = function
+| Lit _ -> true
+| _ -> false
+
+type bucket = { literals : (bytes * n) list; patterns : (pattern * n) list }
+
+(** val empty_bucket : bucket **)
+
+let empty_bucket =
+  { literals = []; patterns = [] }
+
+(** val add_route : bucket -> bytes -> n -> bucket **)
+
+let add_route b path h =
+  let (norm, entry) = parse_route path in
+  if forallb is_lit entry.segs
+  then { literals =
+         (app (filter (fun kv -> negb (bytes_eqb (fst kv) norm)) b.literals)
+           ((norm, h) :: [])); patterns = b.patterns }
+  else { literals = b.literals; patterns =
+         (app
+           (filter (fun kv -> negb (pattern_eqb (fst kv) entry)) b.patterns)
+           ((entry, h) :: [])) }
+
+type meth =
+| Std of n
+| Custom of bytes
+
+(** val meth_eqb : meth -> meth -> bool **)
+
+let meth_eqb a b =
+  match a with
+  | Std i -> (match b with
+              | Std j -> N.eqb i j
+              | Custom _ -> false)
+  | Custom x -> (match b with
+                 | Std _ -> false
+                 | Custom y -> bytes_eqb x y)
+
+type table = ((meth * bytes) * n) list
+
+(** val bucket_of : table -> meth -> bucket **)
+
+let bucket_of t m =
+  fold_left (fun b r ->
+    let (y, h) = r in
+    let (m', path) = y in if meth_eqb m' m then add_route b path h else b) t
+    empty_bucket
+
+(** val find_literal : bucket -> bytes -> n option **)
+
+let find_literal b norm_path =
+  match find (fun kv -> bytes_eqb (fst kv) norm_path) b.literals with
+  | Some kv -> Some (snd kv)
+  | None -> None
+
+type params = (bytes * bytes) list
+
+(** val scan :
+    seg list -> bytes list -> nat -> bool -> params ->
+    ((nat * params) * bytes list) option **)
+
+let rec scan pat us lml counting ps =
+  match pat with
+  | [] -> Some ((lml, ps), us)
+  | sg :: pat' ->
+    let uri_part = match us with
+                   | [] -> None
+                   | u :: _ -> Some u in
+    let us' = match us with
+              | [] -> []
+              | _ :: r -> r in
+    (match sg with
+     | Lit l ->
+       (match uri_part with
+        | Some v ->
+          if bytes_eqb l v
+          then scan pat' us' (if counting then S lml else lml) counting ps
+          else None
+        | None -> None)
+     | Param n0 ->
+       (match uri_part with
+        | Some v -> scan pat' us' lml false (app ps ((n0, v) :: []))
+        | None -> None)
+     | Wild ->
+       (match uri_part with
+        | Some _ -> scan pat' us' lml false ps
+        | None -> None)
+     | DWild -> Some ((lml, ps), us'))
+
+(** val try_pattern : pattern -> bytes list -> (nat * params) option **)
+
+let try_pattern p us =
+  match scan p.segs us O true [] with
+  | Some p0 ->
+    let (p1, rest) = p0 in
+    (match rest with
+     | [] -> Some p1
+     | _ :: _ -> if prec_eqb p.last_prec PDW then Some p1 else None)
+  | None -> None
+
+type rres =
+| Found of n * params
+| Fallback
+
+type best = (((nat * prec) * n) * params) option
+
+(** val better : nat -> prec -> best -> bool **)
+
+let better lml pr = function
+| Some p ->
+  let (p0, _) = p in
+  let (p2, _) = p0 in
+  let (blml, bprec) = p2 in
+  (||) (Nat.ltb blml lml) ((&&) (Nat.eqb lml blml) (prec_gtb pr bprec))
+| None -> true
+
+(** val step_pattern : bytes list -> best -> (pattern * n) -> best **)
+
+let step_pattern us b = function
+| (p, h) ->
+  (match try_pattern p us with
+   | Some p0 ->
+     let (lml, ps) = p0 in
+     if better lml p.last_prec b
+     then Some (((lml, p.last_prec), h), ps)
+     else b
+   | None -> b)
+
+(** val match_route : table -> meth -> bytes -> rres **)
+
+let match_route t m uri =
+  let uri0 = strip_slash uri in
+  let b = bucket_of t m in
+  (match find_literal b uri0 with
+   | Some h -> Found (h, [])
+   | None ->
+     (match fold_left (step_pattern (split_on X2f uri0)) b.patterns None with
+      | Some p -> let (p0, ps) = p in let (_, h) = p0 in Found (h, ps)
+      | None -> Fallback))
+
+(** val classify : bytes -> seg **)
+
+let classify s = match s with
+| [] -> Lit s
+| b :: name ->
+  (match b with
+   | X2a ->
+     (match name with
+      | [] -> Wild
+      | b0 :: l ->
+        (match b0 with
+         | X2a -> (match l with
+                   | [] -> DWild
+                   | _ :: _ -> Lit s)
+         | _ -> Lit s))
+   | X3a -> Param name
+   | _ -> Lit s)
+
+(** val path_segs : bytes -> bytes list **)
+
+let path_segs p =
+  split_on X2f
+    (match p with
+     | [] -> p
+     | b :: r -> (match b with
+                  | X2f -> r
+                  | _ -> p))
+
+(** val pattern_of : bytes -> seg list **)
+
+let pattern_of path =
+  map classify (path_segs path)
+
+(** val matchb : seg list -> bytes list -> bool **)
+
+let rec matchb p us =
+  match p with
+  | [] -> (match us with
+           | [] -> true
+           | _ :: _ -> false)
+  | s0 :: p' ->
+    (match s0 with
+     | Lit s ->
+       (match us with
+        | [] -> false
+        | u :: us' -> (&&) (bytes_eqb s u) (matchb p' us'))
+     | DWild -> (match p' with
+                 | [] -> true
+                 | _ :: _ -> false)
+     | _ -> (match us with
+             | [] -> false
+             | _ :: us' -> matchb p' us'))
+
+(** val lead_lits : seg list -> nat **)
+
+let rec lead_lits = function
+| [] -> O
+| s :: p' -> (match s with
+              | Lit _ -> S (lead_lits p')
+              | _ -> O)
+
+(** val final_rank : seg list -> nat **)
+
+let final_rank p =
+  match last_opt p with
+  | Some s ->
+    (match s with
+     | Lit _ -> S (S (S O))
+     | Param _ -> S (S O)
+     | Wild -> S O
+     | DWild -> O)
+  | None -> O
+
+(** val rank_ltb : seg list -> seg list -> bool **)
+
+let rank_ltb p q =
+  (||) (Nat.ltb (lead_lits p) (lead_lits q))
+    ((&&) (Nat.eqb (lead_lits p) (lead_lits q))
+      (Nat.ltb (final_rank p) (final_rank q)))
+
+(** val all_lit : seg list -> bool **)
+
+let all_lit p =
+  forallb is_lit p
+
+(** val trailing_dw : seg list -> bool **)
+
+let rec trailing_dw = function
+| [] -> true
+| s :: p' ->
+  (match s with
+   | DWild -> (match p' with
+               | [] -> true
+               | _ :: _ -> false)
+   | _ -> trailing_dw p')
+
+(** val equivb : seg list -> seg list -> bool **)
+
+let rec equivb p q =
+  match p with
+  | [] -> (match q with
+           | [] -> true
+           | _ :: _ -> false)
+  | s :: p' ->
+    (match s with
+     | Lit a ->
+       (match q with
+        | [] -> false
+        | s0 :: q' ->
+          (match s0 with
+           | Lit b -> (&&) (bytes_eqb a b) (equivb p' q')
+           | _ -> false))
+     | Param _ ->
+       (match q with
+        | [] -> false
+        | s0 :: q' -> (match s0 with
+                       | Param _ -> equivb p' q'
+                       | _ -> false))
+     | Wild ->
+       (match q with
+        | [] -> false
+        | s0 :: q' -> (match s0 with
+                       | Wild -> equivb p' q'
+                       | _ -> false))
+     | DWild ->
+       (match q with
+        | [] -> false
+        | s0 :: q' -> (match s0 with
+                       | DWild -> equivb p' q'
+                       | _ -> false)))
+
+type route = seg list * n
+
+(** val register : route list -> seg list -> n -> route list **)
+
+let register rs p h =
+  app (filter (fun e -> negb (equivb (fst e) p)) rs) ((p, h) :: [])
+
+(** val routes_of : table -> meth -> route list **)
+
+let routes_of t m =
+  fold_left (fun rs r ->
+    let (y, h) = r in
+    let (m', path) = y in
+    if meth_eqb m' m then register rs (pattern_of path) h else rs) t []
+
+(** val wf_table : table -> bool **)
+
+let wf_table t =
+  forallb (fun r ->
+    let (y, _) = r in let (_, path) = y in trailing_dw (pattern_of path)) t
+
+(** val bindings : seg list -> bytes list -> params **)
+
+let rec bindings p us =
+  match p with
+  | [] -> []
+  | s :: p' ->
+    (match s with
+     | Param n0 ->
+       (match us with
+        | [] -> []
+        | u :: us' -> (n0, u) :: (bindings p' us'))
+     | DWild -> []
+     | _ -> (match us with
+             | [] -> []
+             | _ :: us' -> bindings p' us'))
+
+(** val best_of : route option -> route list -> route option **)
+
+let rec best_of cur = function
+| [] -> cur
+| e :: r ->
+  (match cur with
+   | Some c ->
+     if rank_ltb (fst c) (fst e) then best_of (Some e) r else best_of cur r
+   | None -> best_of (Some e) r)
+
+(** val spec_route : table -> meth -> bytes -> rres **)
+
+let spec_route t m uri =
+  let us = path_segs uri in
+  let rs = routes_of t m in
+  (match find (fun e -> (&&) (all_lit (fst e)) (matchb (fst e) us)) rs with
+   | Some e -> Found ((snd e), [])
+   | None ->
+     (match best_of None (filter (fun e -> matchb (fst e) us) rs) with
+      | Some e -> Found ((snd e), (bindings (fst e) us))
+      | None -> Fallback))
+
+type headers = { stored : (bytes * bytes) list; content_length : n option;
+                 chunked : bool; connection_close : bool; print_date : 
+                 bool }
+
+(** val new_headers : headers **)
+
+let new_headers =
+  { stored = []; content_length = None; chunked = false; connection_close =
+    false; print_date = true }
+
+(** val cONTENT_LENGTH : bytes **)
+
+let cONTENT_LENGTH =
+  bs (String ((Ascii (true, true, false, false, false, true, true, false)),
+    (String ((Ascii (true, true, true, true, false, true, true, false)),
+    (String ((Ascii (false, true, true, true, false, true, true, false)),
+    (String ((Ascii (false, false, true, false, true, true, true, false)),
+    (String ((Ascii (true, false, true, false, false, true, true, false)),
+    (String ((Ascii (false, true, true, true, false, true, true, false)),
+    (String ((Ascii (false, false, true, false, true, true, true, false)),
+    (String ((Ascii (true, false, true, true, false, true, false, false)),
+    (String ((Ascii (false, false, true, true, false, true, true, false)),
+    (String ((Ascii (true, false, true, false, false, true, true, false)),
+    (String ((Ascii (false, true, true, true, false, true, true, false)),
+    (String ((Ascii (true, true, true, false, false, true, true, false)),
+    (String ((Ascii (false, false, true, false, true, true, true, false)),
+    (String ((Ascii (false, false, false, true, false, true, true, false)),
+    EmptyString))))))))))))))))))))))))))))
+
+(** val tRANSFER_ENCODING : bytes **)
+
+let tRANSFER_ENCODING =
+  bs (String ((Ascii (false, false, true, false, true, true, true, false)),
+    (String ((Ascii (false, true, false, false, true, true, true, false)),
+    (String ((Ascii (true, false, false, false, false, true, true, false)),
+    (String ((Ascii (false, true, true, true, false, true, true, false)),
+    (String ((Ascii (true, true, false, false, true, true, true, false)),
+    (String ((Ascii (false, true, true, false, false, true, true, false)),
+    (String ((Ascii (true, false, true, false, false, true, true, false)),
+    (String ((Ascii (false, true, false, false, true, true, true, false)),
+    (String ((Ascii (true, false, true, true, false, true, false, false)),
+    (String ((Ascii (true, false, true, false, false, true, true, false)),
+    (String ((Ascii (false, true, true, true, false, true, true, false)),
+    (String ((Ascii (true, true, false, false, false, true, true, false)),
+    (String ((Ascii (true, true, true, true, false, true, true, false)),
+    (String ((Ascii (false, false, true, false, false, true, true, false)),
+    (String ((Ascii (true, false, false, true, false, true, true, false)),
+    (String ((Ascii (false, true, true, true, false, true, true, false)),
+    (String ((Ascii (true, true, true, false, false, true, true, false)),
+    EmptyString))))))))))))))))))))))))))))))))))
+
+(** val cONNECTION : bytes **)
+
+let cONNECTION =
+  bs (String ((Ascii (true, true, false, false, false, true, true, false)),
+    (String ((Ascii (true, true, true, true, false, true, true, false)),
+    (String ((Ascii (false, true, true, true, false, true, true, false)),
+    (String ((Ascii (false, true, true, true, false, true, true, false)),
+    (String ((Ascii (true, false, true, false, false, true, true, false)),
+    (String ((Ascii (true, true, false, false, false, true, true, false)),
+    (String ((Ascii (false, false, true, false, true, true, true, false)),
+    (String ((Ascii (true, false, false, true, false, true, true, false)),
+    (String ((Ascii (true, true, true, true, false, true, true, false)),
+    (String ((Ascii (false, true, true, true, false, true, true, false)),
+    EmptyString))))))))))))))))))))
+
+(** val trim_ows : bytes -> bytes **)
+
+let trim_ows v =
+  trim_both is_ows v
+
+(** val u64_MAX : n **)
+
+let u64_MAX =
+  Npos (XI (XI (XI (XI (XI (XI (XI (XI (XI (XI (XI (XI (XI (XI (XI (XI (XI
+    (XI (XI (XI (XI (XI (XI (XI (XI (XI (XI (XI (XI (XI (XI (XI (XI (XI (XI
+    (XI (XI (XI (XI (XI (XI (XI (XI (XI (XI (XI (XI (XI (XI (XI (XI (XI (XI
+    (XI (XI (XI (XI (XI (XI (XI (XI (XI (XI
+    XH)))))))))))))))))))))))))))))))))))))))))))))))))))))))))))))))
+
+(** val parse_digits : n -> bytes -> n option **)
+
+let rec parse_digits acc = function
+| [] -> Some acc
+| b :: r ->
+  if is_digit b
+  then let acc' =
+         N.add (N.mul acc (Npos (XO (XI (XO XH)))))
+           (N.sub (b2n b) (Npos (XO (XO (XO (XO (XI XH)))))))
+       in
+       if N.leb acc' u64_MAX then parse_digits acc' r else None
+  else None
+
+(** val parse_content_length : bytes -> n option **)
+
+let parse_content_length v =
+  match trim_ows v with
+  | [] -> None
+  | b :: l -> parse_digits N0 (b :: l)
+
+(** val has_token_loop : bytes -> bytes -> bool **)
+
+let has_token_loop tok value =
+  existsb (fun v -> eq_ic (trim_ows v) tok) (split_on X2c value)
+
+(** val add0 : headers -> bytes -> bytes -> headers **)
+
+let add0 h name value =
+  if eq_ic name cONTENT_LENGTH
+  then { stored = h.stored; content_length = (parse_content_length value);
+         chunked = h.chunked; connection_close = h.connection_close;
+         print_date = h.print_date }
+  else if eq_ic name tRANSFER_ENCODING
+       then { stored = (app h.stored ((name, value) :: [])); content_length =
+              h.content_length; chunked =
+              ((||) h.chunked
+                (has_token_loop
+                  (bs (String ((Ascii (true, true, false, false, false, true,
+                    true, false)), (String ((Ascii (false, false, false,
+                    true, false, true, true, false)), (String ((Ascii (true,
+                    false, true, false, true, true, true, false)), (String
+                    ((Ascii (false, true, true, true, false, true, true,
+                    false)), (String ((Ascii (true, true, false, true, false,
+                    true, true, false)), (String ((Ascii (true, false, true,
+                    false, false, true, true, false)), (String ((Ascii
+                    (false, false, true, false, false, true, true, false)),
+                    EmptyString))))))))))))))) value)); connection_close =
+              h.connection_close; print_date = h.print_date }
+       else if eq_ic name cONNECTION
+            then { stored = (app h.stored ((name, value) :: []));
+                   content_length = h.content_length; chunked = h.chunked;
+                   connection_close =
+                   ((||) h.connection_close
+                     (has_token_loop
+                       (bs (String ((Ascii (true, true, false, false, false,
+                         true, true, false)), (String ((Ascii (false, false,
+                         true, true, false, true, true, false)), (String
+                         ((Ascii (true, true, true, true, false, true, true,
+                         false)), (String ((Ascii (true, true, false, false,
+                         true, true, true, false)), (String ((Ascii (true,
+                         false, true, false, false, true, true, false)),
+                         EmptyString))))))))))) value)); print_date =
+                   h.print_date }
+            else { stored = (app h.stored ((name, value) :: []));
+                   content_length = h.content_length; chunked = h.chunked;
+                   connection_close = h.connection_close; print_date =
+                   h.print_date }
+
+(** val remove : headers -> bytes -> headers **)
+
+let remove h name =
+  let st = filter (fun kv -> negb (eq_ic (fst kv) name)) h.stored in
+  if eq_ic name cONTENT_LENGTH
+  then { stored = st; content_length = None; chunked = h.chunked;
+         connection_close = h.connection_close; print_date = h.print_date }
+  else if eq_ic name tRANSFER_ENCODING
+       then { stored = st; content_length = h.content_length; chunked =
+              false; connection_close = h.connection_close; print_date =
+              h.print_date }
+       else if eq_ic name cONNECTION
+            then { stored = st; content_length = h.content_length; chunked =
+                   h.chunked; connection_close = false; print_date =
+                   h.print_date }
+            else { stored = st; content_length = h.content_length; chunked =
+                   h.chunked; connection_close = h.connection_close;
+                   print_date = h.print_date }
+
+(** val replace : headers -> bytes -> bytes -> headers **)
+
+let replace h name value =
+  add0 (remove h name) name value
+
+(** val set_content_length : headers -> n option -> headers **)
+
+let set_content_length h len =
+  { stored = h.stored; content_length = len; chunked = h.chunked;
+    connection_close = h.connection_close; print_date = h.print_date }
+
+(** val set_transfer_encoding_chunked : headers -> headers **)
+
+let set_transfer_encoding_chunked h =
+  { stored =
+    (app h.stored ((tRANSFER_ENCODING,
+      (bs (String ((Ascii (true, true, false, false, false, true, true,
+        false)), (String ((Ascii (false, false, false, true, false, true,
+        true, false)), (String ((Ascii (true, false, true, false, true, true,
+        true, false)), (String ((Ascii (false, true, true, true, false, true,
+        true, false)), (String ((Ascii (true, true, false, true, false, true,
+        true, false)), (String ((Ascii (true, false, true, false, false,
+        true, true, false)), (String ((Ascii (false, false, true, false,
+        false, true, true, false)), EmptyString)))))))))))))))) :: []));
+    content_length = h.content_length; chunked = true; connection_close =
+    h.connection_close; print_date = h.print_date }
+
+(** val set_connection_close : headers -> headers **)
+
+let set_connection_close h =
+  { stored =
+    (app h.stored ((cONNECTION,
+      (bs (String ((Ascii (true, true, false, false, false, true, true,
+        false)), (String ((Ascii (false, false, true, true, false, true,
+        true, false)), (String ((Ascii (true, true, true, true, false, true,
+        true, false)), (String ((Ascii (true, true, false, false, true, true,
+        true, false)), (String ((Ascii (true, false, true, false, false,
+        true, true, false)), EmptyString)))))))))))) :: []));
+    content_length = h.content_length; chunked = h.chunked;
+    connection_close = true; print_date = h.print_date }
+
+(** val get : headers -> bytes -> bytes option **)
+
+let get h name =
+  match find (fun kv -> eq_ic (fst kv) name) (rev h.stored) with
+  | Some kv -> Some (snd kv)
+  | None -> None
+
+(** val get_all : headers -> bytes -> (bytes * bytes) list **)
+
+let get_all h name =
+  filter (fun kv -> eq_ic (fst kv) name) h.stored
+
+(** val get_count : headers -> nat **)
+
+let get_count h =
+  length h.stored
+
+(** val token_values : headers -> bytes -> bytes list **)
+
+let token_values h name =
+  flat_map (fun kv -> map trim_ows (split_on X2c (snd kv))) (get_all h name)
+
+type hop =
+| OAdd of bytes * bytes
+| OReplace of bytes * bytes
+| ORemove of bytes
+| OSetCL of n option
+| OSetChunked
+| OSetClose
+
+(** val hstep : headers -> hop -> headers **)
+
+let hstep h = function
+| OAdd (n0, v) -> add0 h n0 v
+| OReplace (n0, v) -> replace h n0 v
+| ORemove n0 -> remove h n0
+| OSetCL l -> set_content_length h l
+| OSetChunked -> set_transfer_encoding_chunked h
+| OSetClose -> set_connection_close h
+
+(** val lower : bytes -> bytes **)
+
+let lower s =
+  map to_lower s
+
+(** val same_name : bytes -> bytes -> bool **)
+
+let same_name a b =
+  bytes_eqb (lower a) (lower b)
+
+(** val strip_ows : bytes -> bytes **)
+
+let strip_ows v =
+  rev (drop_while is_ows (rev (drop_while is_ows v)))
+
+(** val tokens : bytes -> bytes list **)
+
+let tokens v =
+  map strip_ows (split_on X2c v)
+
+(** val field_has_token : bytes -> bytes -> (bytes * bytes) -> bool **)
+
+let field_has_token name tok f =
+  (&&) (same_name (fst f) name)
+    (existsb (fun t -> same_name t tok) (tokens (snd f)))
+
+(** val eval_chunked : (bytes * bytes) list -> bool **)
+
+let eval_chunked fs =
+  existsb
+    (field_has_token
+      (bs (String ((Ascii (false, false, true, false, true, true, true,
+        false)), (String ((Ascii (false, true, false, false, true, true,
+        true, false)), (String ((Ascii (true, false, false, false, false,
+        true, true, false)), (String ((Ascii (false, true, true, true, false,
+        true, true, false)), (String ((Ascii (true, true, false, false, true,
+        true, true, false)), (String ((Ascii (false, true, true, false,
+        false, true, true, false)), (String ((Ascii (true, false, true,
+        false, false, true, true, false)), (String ((Ascii (false, true,
+        false, false, true, true, true, false)), (String ((Ascii (true,
+        false, true, true, false, true, false, false)), (String ((Ascii
+        (true, false, true, false, false, true, true, false)), (String
+        ((Ascii (false, true, true, true, false, true, true, false)), (String
+        ((Ascii (true, true, false, false, false, true, true, false)),
+        (String ((Ascii (true, true, true, true, false, true, true, false)),
+        (String ((Ascii (false, false, true, false, false, true, true,
+        false)), (String ((Ascii (true, false, false, true, false, true,
+        true, false)), (String ((Ascii (false, true, true, true, false, true,
+        true, false)), (String ((Ascii (true, true, true, false, false, true,
+        true, false)), EmptyString)))))))))))))))))))))))))))))))))))
+      (bs (String ((Ascii (true, true, false, false, false, true, true,
+        false)), (String ((Ascii (false, false, false, true, false, true,
+        true, false)), (String ((Ascii (true, false, true, false, true, true,
+        true, false)), (String ((Ascii (false, true, true, true, false, true,
+        true, false)), (String ((Ascii (true, true, false, true, false, true,
+        true, false)), (String ((Ascii (true, false, true, false, false,
+        true, true, false)), (String ((Ascii (false, false, true, false,
+        false, true, true, false)), EmptyString)))))))))))))))) fs
+
+(** val eval_close : (bytes * bytes) list -> bool **)
+
+let eval_close fs =
+  existsb
+    (field_has_token
+      (bs (String ((Ascii (true, true, false, false, false, true, true,
+        false)), (String ((Ascii (true, true, true, true, false, true, true,
+        false)), (String ((Ascii (false, true, true, true, false, true, true,
+        false)), (String ((Ascii (false, true, true, true, false, true, true,
+        false)), (String ((Ascii (true, false, true, false, false, true,
+        true, false)), (String ((Ascii (true, true, false, false, false,
+        true, true, false)), (String ((Ascii (false, false, true, false,
+        true, true, true, false)), (String ((Ascii (true, false, false, true,
+        false, true, true, false)), (String ((Ascii (true, true, true, true,
+        false, true, true, false)), (String ((Ascii (false, true, true, true,
+        false, true, true, false)), EmptyString)))))))))))))))))))))
+      (bs (String ((Ascii (true, true, false, false, false, true, true,
+        false)), (String ((Ascii (false, false, true, true, false, true,
+        true, false)), (String ((Ascii (true, true, true, true, false, true,
+        true, false)), (String ((Ascii (true, true, false, false, true, true,
+        true, false)), (String ((Ascii (true, false, true, false, false,
+        true, true, false)), EmptyString)))))))))))) fs
+
+(** val lookup_all : (bytes * bytes) list -> bytes -> (bytes * bytes) list **)
+
+let lookup_all fs name =
+  filter (fun f -> same_name (fst f) name) fs
+
+(** val lookup_last : (bytes * bytes) list -> bytes -> bytes option **)
+
+let lookup_last fs name =
+  match rev (lookup_all fs name) with
+  | [] -> None
+  | f :: _ -> Some (snd f)
+
+(** val dec_value : n -> bytes -> n **)
+
+let rec dec_value acc = function
+| [] -> acc
+| b :: r ->
+  dec_value
+    (N.add (N.mul acc (Npos (XO (XI (XO XH)))))
+      (N.sub (b2n b) (Npos (XO (XO (XO (XO (XI XH)))))))) r
+
+(** val cl_value : bytes -> n option **)
+
+let cl_value v =
+  let d = strip_ows v in
+  (match d with
+   | [] -> None
+   | _ :: _ ->
+     if (&&) (forallb is_digit d)
+          (N.ltb (dec_value N0 d)
+            (N.pow (Npos (XO XH)) (Npos (XO (XO (XO (XO (XO (XO XH)))))))))
+     then Some (dec_value N0 d)
+     else None)
+
+(** val is_cl : bytes -> bool **)
+
+let is_cl n0 =
+  same_name n0
+    (bs (String ((Ascii (true, true, false, false, false, true, true,
+      false)), (String ((Ascii (true, true, true, true, false, true, true,
+      false)), (String ((Ascii (false, true, true, true, false, true, true,
+      false)), (String ((Ascii (false, false, true, false, true, true, true,
+      false)), (String ((Ascii (true, false, true, false, false, true, true,
+      false)), (String ((Ascii (false, true, true, true, false, true, true,
+      false)), (String ((Ascii (false, false, true, false, true, true, true,
+      false)), (String ((Ascii (true, false, true, true, false, true, false,
+      false)), (String ((Ascii (false, false, true, true, false, true, true,
+      false)), (String ((Ascii (true, false, true, false, false, true, true,
+      false)), (String ((Ascii (false, true, true, true, false, true, true,
+      false)), (String ((Ascii (true, true, true, false, false, true, true,
+      false)), (String ((Ascii (false, false, true, false, true, true, true,
+      false)), (String ((Ascii (false, false, false, true, false, true, true,
+      false)), EmptyString)))))))))))))))))))))))))))))
+
+(** val store_step : (bytes * bytes) list -> hop -> (bytes * bytes) list **)
+
+let store_step fs o =
+  let without = fun n0 -> filter (fun f -> negb (same_name (fst f) n0)) fs in
+  (match o with
+   | OAdd (n0, v) -> if is_cl n0 then fs else app fs ((n0, v) :: [])
+   | OReplace (n0, v) ->
+     if is_cl n0 then without n0 else app (without n0) ((n0, v) :: [])
+   | ORemove n0 -> without n0
+   | OSetCL _ -> fs
+   | OSetChunked ->
+     app fs
+       (((bs (String ((Ascii (false, false, true, false, true, true, true,
+           false)), (String ((Ascii (false, true, false, false, true, true,
+           true, false)), (String ((Ascii (true, false, false, false, false,
+           true, true, false)), (String ((Ascii (false, true, true, true,
+           false, true, true, false)), (String ((Ascii (true, true, false,
+           false, true, true, true, false)), (String ((Ascii (false, true,
+           true, false, false, true, true, false)), (String ((Ascii (true,
+           false, true, false, false, true, true, false)), (String ((Ascii
+           (false, true, false, false, true, true, true, false)), (String
+           ((Ascii (true, false, true, true, false, true, false, false)),
+           (String ((Ascii (true, false, true, false, false, true, true,
+           false)), (String ((Ascii (false, true, true, true, false, true,
+           true, false)), (String ((Ascii (true, true, false, false, false,
+           true, true, false)), (String ((Ascii (true, true, true, true,
+           false, true, true, false)), (String ((Ascii (false, false, true,
+           false, false, true, true, false)), (String ((Ascii (true, false,
+           false, true, false, true, true, false)), (String ((Ascii (false,
+           true, true, true, false, true, true, false)), (String ((Ascii
+           (true, true, true, false, false, true, true, false)),
+           EmptyString))))))))))))))))))))))))))))))))))),
+       (bs (String ((Ascii (true, true, false, false, false, true, true,
+         false)), (String ((Ascii (false, false, false, true, false, true,
+         true, false)), (String ((Ascii (true, false, true, false, true,
+         true, true, false)), (String ((Ascii (false, true, true, true,
+         false, true, true, false)), (String ((Ascii (true, true, false,
+         true, false, true, true, false)), (String ((Ascii (true, false,
+         true, false, false, true, true, false)), (String ((Ascii (false,
+         false, true, false, false, true, true, false)),
+         EmptyString)))))))))))))))) :: [])
+   | OSetClose ->
+     app fs
+       (((bs (String ((Ascii (true, true, false, false, false, true, true,
+           false)), (String ((Ascii (true, true, true, true, false, true,
+           true, false)), (String ((Ascii (false, true, true, true, false,
+           true, true, false)), (String ((Ascii (false, true, true, true,
+           false, true, true, false)), (String ((Ascii (true, false, true,
+           false, false, true, true, false)), (String ((Ascii (true, true,
+           false, false, false, true, true, false)), (String ((Ascii (false,
+           false, true, false, true, true, true, false)), (String ((Ascii
+           (true, false, false, true, false, true, true, false)), (String
+           ((Ascii (true, true, true, true, false, true, true, false)),
+           (String ((Ascii (false, true, true, true, false, true, true,
+           false)), EmptyString))))))))))))))))))))),
+       (bs (String ((Ascii (true, true, false, false, false, true, true,
+         false)), (String ((Ascii (false, false, true, true, false, true,
+         true, false)), (String ((Ascii (true, true, true, true, false, true,
+         true, false)), (String ((Ascii (true, true, false, false, true,
+         true, true, false)), (String ((Ascii (true, false, true, false,
+         false, true, true, false)), EmptyString)))))))))))) :: []))
+
+(** val spec_cl_rev : hop list -> n option **)
+
+let rec spec_cl_rev = function
+| [] -> None
+| h :: r ->
+  (match h with
+   | OAdd (n0, v) -> if is_cl n0 then cl_value v else spec_cl_rev r
+   | OReplace (n0, v) -> if is_cl n0 then cl_value v else spec_cl_rev r
+   | ORemove n0 -> if is_cl n0 then None else spec_cl_rev r
+   | OSetCL l -> l
+   | _ -> spec_cl_rev r)
+
+(** val spec_cl : hop list -> n option **)
+
+let spec_cl ops =
+  spec_cl_rev (rev ops)
